@@ -108,6 +108,7 @@ class UniqueNames:
 
     def __init__(self, prg: list[AST], input_predicates: list[Predicate]) -> None:
         self.auxcounter = 0
+        self.input_predicates: set[Predicate] = set(input_predicates)
         self.predicates: set[Predicate] = set(input_predicates)
         for stm in prg:
             for spred in predicates(stm):
